@@ -19,9 +19,14 @@ namespace {
 
 // hash table geometry seen by the probe search (must equal that of a fresh engine: Clear Hash restores the full table)
 bool g_probeActive = false;
+long g_epoch = -1;
 unsigned long long g_usedMin = ~0ULL, g_usedMax = 0, g_tableSize = 0;
 void indexObserver(unsigned long long, unsigned long long usedSize, unsigned long long tableSize) {
     if (!g_probeActive) return;
+    // only the accesses after the previous search's bestmove belong to the probe search (an earlier search may
+    // still be running when the probe's go is sent)
+    long ep = sess::bestmovesSoFar();
+    if (ep != g_epoch) { g_epoch = ep; g_usedMin = ~0ULL; g_usedMax = 0; }
     if (usedSize < g_usedMin) g_usedMin = usedSize;
     if (usedSize > g_usedMax) g_usedMax = usedSize;
     g_tableSize = tableSize;
@@ -59,6 +64,7 @@ std::string probeTranscript(const sess::History& h, const uci::Model& m) {
 std::string runAndTranscribe(const Scenario& sc, vf::Result& res, bool checkOracles) {
     sess::History h;
     g_probeActive = false;
+    g_epoch = -1;
     g_usedMin = ~0ULL; g_usedMax = 0; g_tableSize = 0;
     verif_tt_index_observer = indexObserver;
     sess::customOp = probeMarker;
